@@ -41,6 +41,7 @@ def run(run, args):
     run.oblige("correspondence: model = implementation after every step, all four families", not res[0], "%d histories differ" % len(res[0]))
     run.oblige("mass = calc_mass = exact sum on every implementation observation", not res[1], "")
     broken = standard_proof_obligations(run, "C02", THEOREMS)
+    broken += source_corollaries(run, "C02s", ['C02s_invariant_is_source', 'C02s_invariant_is_source_map', 'C02s_list_mutators', 'C02s_map_mutators', 'C02s_list_coherent', 'C02s_map_coherent', 'C02s_enum_coherent', 'C02s_add_ref', 'C02s_mul_val'], ('comp', 'props'))
     # floating-point level: calc_mass as an fma chain in rounded arithmetic, and its binary64 instance (Flocq's Bfma)
     broken += standard_proof_obligations(run, "C02f", ["C02_calc_mass_chain", "C02_mass_rounded", "C02_binary64_std_fma", "C02_mass_binary64",
                                                        "C02_float_nonvacuous"], allowed_axioms=STD_FLOAT_AXIOMS)
